@@ -3,7 +3,40 @@
 import json, os, sys
 HERE = os.path.dirname(os.path.dirname(os.path.abspath(__file__)))
 TECH = "contract-based deductive verification"
+BND = "bounded run-time contract checking of the real code over an exhaustively enumerated finite scope (stand-in for functions outside the verifier's reach; labelled bounded, never counted as proved)"
 CHECKS = {
+ "C05": dict(cat="other", engine="smallscope",
+   text="Contracts on Manager.extrapolate_system / complete_correspondence / calculate_exchange_maps taken from the statement are evaluated at run time on the real Manager/System/ExchangeMap/GroFile over every molecule sequence up to the bound x every subset of species given an end molecule x box kinds x scale factors, against an oracle computed from the generated input. Bounded only; no obligation is counted as proved.",
+   note="bounded scope (sequences <= 3 quick / <= 5 thorough over 4 species); trusted: CPython, numpy, the check's own .gro formatter/parser; exchange-map values taken from the real ExchangeMap (its correctness is C01-C04)",
+   tech=BND, ref="DESIGN.md section 6 C05"),
+ "C07": dict(cat="other", engine="symrun",
+   text="move_mol_atom: for every labelled tree on 2..5 (quick) / 2..6 (+ sampled 7) atoms and every moved atom the real function runs on fully symbolic coordinates, bond table and displacement (one path); the postconditions (moved atom displaced exactly, every tabulated bond has its tabulated length, input unmodified, termination, sqrt arguments non-negative) are discharged by z3 for all real inputs of that structure; cyclic graphs: exact bonds contain a spanning tree. find_atom_random_displ: loop-free, proved for all inputs and all random draws per neighbour-count class. Structure-bounded, hence 'other', not 'proof'.",
+   note="A1 float64 as reals; A2 object-dtype transparency (concolic check per instance); generic-position precondition (no intermediate distance is zero) assumed; arbitrary molecule size not proved",
+   tech="contract-based deductive verification: symbolic execution of the real functions per discrete structure, VCs discharged by z3; structure enumeration bounded", ref="DESIGN.md section 6 C07"),
+ "C09": dict(cat="proof", engine="pyvc+symrun",
+   text="accept_metropolis: every path of the real function on symbolic energies/acceptance/draw (complete). _minimize_molecules: VCs generated from the AST of the real function, loop invariant over ghost state (held configuration, lowest measure, steps since last new lowest), call-site assertions, transition and exit postconditions -- all discharged by z3 for every iteration count and every random stream (draws are universally quantified symbols). minimize_molecules wrapper: parameter forwarding. Bounded twins (monitored real loop; real loop with scripted callees, exhaustive to a choice depth) are separate and not counted as proved.",
+   note="callees by contract (Chi2Calculator pure and >= 0: C08; move_mol_atom: C07; rotation_matrix: C17); numpy array +,-,dot,mean as uninterpreted row-wise operations; termination not proved; compiled back end absent; trusted: z3, vf/pyvc.py, vf/symrun.py",
+   tech="contract-based deductive verification: AST-level VC generation with loop invariant and ghost state (pyvc) + symbolic execution (symrun), z3", ref="DESIGN.md section 6 C09"),
+ "C11": dict(cat="other", engine="smallscope",
+   text="Contracts on System.__init__/add_molecule_top/__iter__/__getitem__/__len__/composition from the statement, evaluated on the real classes for every molecule sequence up to the bound over 4 species and every topology loading order, oracle = the generator's own record list. Bounded only.",
+   note="bounded scope (sequences <= 4 quick / <= 6 thorough, all loading orders); no deductive obligation (run matching over consumed numpy arrays inside a class)",
+   tech=BND, ref="DESIGN.md section 6 C11"),
+ "C12": dict(cat="other", engine="smallscope",
+   text="Contracts on SystemGro iteration / len / n_atoms / box / title and random access as a single-step obligation from every forced cursor position and after every partial iteration, on generated files (all residue-kind sequences up to the bound, four numbering schemes, velocities on/off) against an independent parse. Bounded only.",
+   note="bounded scope (kind sequences <= 4 quick / <= 5 thorough; seeded long files); history length covered by the single-step-from-any-cursor reduction (state scope bounded)",
+   tech=BND, ref="DESIGN.md section 6 C12"),
+ "C14": dict(cat="other", engine="smallscope",
+   text="Reader contract (accepted prefix => reaches into the box line and returns exactly the complete file's records) on every byte prefix of generated and shipped files; writer contract (every flushed state before close() returns is rejected) at every low-level write/seek of real writer sessions. Bounded only.",
+   note="bounded scope (1..4 records quick / 1..8 thorough, shipped files); operation granularity = each low-level write/seek of the underlying file; OS-level atomicity not modelled",
+   tech=BND, ref="DESIGN.md section 6 C14"),
+ "C15": dict(cat="other", engine="smallscope+static",
+   text="Static obligation (discharged on the AST): are_connected and its callees are not recursive. Bounded contract checks of read_topology / MoleculeTop / are_connected / copy on every labelled graph on <= 4 atoms x every split of edges over bonds/constraints/pairs x decoration variants, large chains/stars/trees/forests (1000-3000 atoms) and the 16 shipped topologies against an independent parse.",
+   note="bounded scope as stated; the recursion obligation is syntactic (call graph of components/__init__.py)",
+   tech=BND + "; plus one static call-graph obligation", ref="DESIGN.md section 6 C15"),
+ "C16": dict(cat="other", engine="smallscope",
+   text="Round-trip contracts on ItpLine (parse_itp_line + line) for every string up to length 6/7 over a small alphabet and on ItpFile read-write-read for every file of <= 4 (quick) / <= 5-6 lines over ten line kinds incl. repeated section headers and empty/multiple trailing comments, plus the 16 shipped topologies; oracle = an independent reference reading of the text. Bounded only.",
+   note="bounded scope as stated; no deductive obligation (regular expressions and split/join chains are outside what the SMT string solvers decide here)",
+   tech=BND, ref="DESIGN.md section 6 C16"),
  "C17": dict(cat="proof", engine="symrun",
    text="Every postcondition clause of rotation_matrix and calcule_base taken from the property statement is discharged for all real inputs on every path of the real function (loop-free, fully symbolic => complete); the bounded float twin of the same clauses is reported separately and not counted as proved.",
    note="A1 float64 as exact reals; A2 numpy object-dtype transparency (concolically cross-checked); A4 trig axioms; trusted: z3, sympy, CPython/numpy, vf/symrun.py",
@@ -12,6 +45,10 @@ CHECKS = {
    text="Residue.distance_to runs on fully symbolic coordinates and boxes (one path). Orthorhombic boxes: result^2 equals sum (d_i - L_i k_i)^2 for the code's integers k and is <= the same sum for every integer vector n (free integer symbols: all images), hence <= the direct distance. General non-singular boxes: symmetry, invariance under symbolic integer lattice shifts of either argument, inverse-flag equivalence. Every clause is discharged by scripted z3 / Groebner / explicit-certificate steps; the bounded float twin is separate.",
    note="A1 float64 as reals; A2; A3 contract of numpy.linalg.inv (two-sided inverse, functional) and numpy.round (nearest integer); ties excluded as in the statement; trusted: z3, sympy, vf/symrun.py",
    tech=TECH + ": symbolic execution of the real method with contract stubs for numpy.linalg.inv / numpy.round, scripted SMT + ideal-membership proofs", ref="DESIGN.md section 6 C19"),
+ "C20": dict(cat="other", engine="smallscope",
+   text="classify_files: exact classification over an enumerated name set. sort_molecules: postcondition required for every iteration order of both candidate sets (classify_files stubbed by adversarially ordered set objects = hash-seed independence stated in the callee's contract), every explicit subset, generated and shipped directories. main/auto_map: protocol contract with Manager replaced by a recorder over 870 argv vectors; 8 end-to-end byte comparisons with the library workflow under the same seed. Bounded only.",
+   note="bounded scope as stated; interpreter hash seeds replaced by adversarial iteration orders (+ a small real PYTHONHASHSEED sweep)",
+   tech=BND, ref="DESIGN.md section 6 C20"),
 }
 NOT_YET = "check not built yet in this round (work in progress; see DESIGN.md section 6 for the plan)"
 NA = {}
